@@ -442,8 +442,10 @@ fn add_f1(rng: &mut Rng, case: &mut gen::Case) {
 /// two-pass entry point builds must then still give every key of a touched contract a value.
 fn add_faults(rng: &mut Rng, case: &mut gen::Case, sparse_ok: bool) {
     let cands = gen::fault_candidates(&case.abs);
-    if sparse_ok && rng.chance(1, 4) {
-        case.abs.faults = vec![Fault::Sparse];
+    if sparse_ok && rng.chance(1, 3) {
+        // a device-wide oddity instead of bad keys: short answers, or refusal of ranges that
+        // run past the last key
+        case.abs.faults = vec![if rng.chance(1, 2) { Fault::Sparse } else { Fault::WrapError { id: 7300 } }];
         case.abs.entry = crate::wl::Entry::TwoPass;
         gen::finalize(&mut case.abs, &case.numberings);
         case.w = gen::realize(&case.abs, &case.numberings);
@@ -596,6 +598,9 @@ pub fn scenarios(batch: Batch, run_seed: u64) -> (Vec<Scenario>, u64) {
             });
         }
         Batch::C04Permutation | Batch::C04Conflict => {
+            if batch == Batch::C04Permutation && fault_rng.chance(1, 4) {
+                add_faults(&mut fault_rng, &mut case, true);
+            }
             if batch == Batch::C04Conflict {
                 inject_conflict(&mut fault_rng, &mut case);
             } else if fault_rng.chance(1, 4) {
